@@ -220,6 +220,11 @@ class QasmOutput:
                 QASM depending on version.
         """
         self.operations = tuple(ops.flatten_to_ops(operations))
+        non_qubits = [q for q in qubits if q.dimension != 2]
+        if non_qubits:
+            # OpenQASM registers hold qubits: a qudit operation would be written as the qubit gate
+            # of the same name.
+            raise ValueError(f'QASM output is only supported for qubits, but got {non_qubits}.')
         self.qubits = qubits
         self.header = header
         self.measurements = tuple(
